@@ -30,6 +30,7 @@ func factsMore(x *extractor) {
 	x.factsLife()
 	x.factsLifeRelease()
 	x.factsSock()
+	x.factsCrash()
 }
 
 const netceptorGo = "pkg/netceptor/netceptor.go"
@@ -2013,4 +2014,98 @@ func (x *extractor) factsSock() {
 		})
 	}
 	x.set("sock_dial_cleanup", dial)
+}
+
+// ---------------------------------------------------------------- C04: crash / restart
+
+func (x *extractor) factsCrash() {
+	const wc, cm, rw, wb = "pkg/workceptor/workceptor.go", "pkg/workceptor/command.go", "pkg/workceptor/remote_work.go", "pkg/workceptor/workunitbase.go"
+	// is a record replaced atomically (temporary file + rename) or rewritten in place?
+	atomic := false
+	if fd := x.fn(wb, "StatusFileData", "UpdateFullStatus"); fd != nil {
+		b := x.str(fd.Body)
+		atomic = strings.Contains(b, "os.Rename(") && !strings.Contains(b, "file.Truncate(0)")
+	}
+	x.set("crash_rewrite_atomic", atomic)
+	// scanForUnit, step by step
+	scan := "unknown"
+	if fd := x.fn(wc, "Workceptor", "scanForUnit"); fd != nil {
+		b := x.str(fd.Body)
+		var parts []string
+		add := func(cond bool, s string) {
+			if cond {
+				parts = append(parts, s)
+			} else {
+				parts = append(parts, "!"+s)
+			}
+		}
+		add(strings.Contains(b, "fi == nil || !fi.IsDir()"), "not-a-dir:return")
+		add(strings.Contains(b, "_ = sfd.Load(statusFilename)"), "load-ignoring-errors")
+		add(strings.Contains(b, "wt, ok := w.workTypes[sfd.WorkType]") && strings.Contains(b, "newUnknownWorker(w, ident, sfd.WorkType)"), "type-registered:its-worker|unknown-worker")
+		add(strings.Contains(b, "os.IsNotExist(err)") && strings.Contains(b, "Status file has disappeared"), "no-status-file:return")
+		add(strings.Contains(b, "err := worker.Load()") && strings.Contains(b, `worker.UpdateBasicStatus(WorkStateFailed, fmt.Sprintf("Failed to restart: %s", err), stdoutSize(unitdir))`), "load-error:mark-failed")
+		add(strings.Contains(b, "err = worker.Restart()") && strings.Contains(b, "err != nil && !IsPending(err)"), "restart-error:mark-failed")
+		add(strings.Contains(b, "w.activeUnits[ident] = worker"), "register")
+		scan = strings.Join(parts, ";")
+	}
+	x.set("crash_scan", scan)
+	cr := "unknown"
+	if fd := x.fn(cm, "commandUnit", "Restart"); fd != nil {
+		var parts []string
+		for _, s := range fd.Body.List {
+			t := x.str(s)
+			switch {
+			case strings.HasPrefix(t, "if err := cw.Load()"):
+				parts = append(parts, "load:err->return")
+			case strings.HasPrefix(t, "if IsComplete(state)"):
+				parts = append(parts, "complete:return")
+			case strings.HasPrefix(t, "if state == WorkStatePending {") && strings.Contains(t, `cw.UpdateBasicStatus(WorkStateFailed, "Pending at restart"`):
+				parts = append(parts, "pending:mark-failed")
+			case strings.HasPrefix(t, "if ") && strings.Contains(t, "WorkStatePending"):
+				parts = append(parts, "pending-and-more:"+t[:strings.Index(t, "{")])
+			case t == "go cw.MonitorLocalStatus()":
+				parts = append(parts, "monitor")
+			}
+		}
+		cr = strings.Join(parts, ";")
+	}
+	x.set("crash_cmd_restart", cr)
+	rr := "unknown"
+	if fd := x.fn(rw, "remoteUnit", "Restart"); fd != nil {
+		b := x.str(fd.Body)
+		if strings.Contains(b, "if red.RemoteStarted { return rw.startOrRestart(false) }") && strings.Contains(b, `return fmt.Errorf("remote work had not previously started")`) {
+			rr = "started:resume|error"
+		} else {
+			rr = b
+		}
+	}
+	x.set("crash_remote_restart", rr)
+	// startRemoteUnit: the remote unit's ID is stored before the stdin is streamed, "started" after the remote's reply
+	bind := "unknown"
+	if fd := x.fn(rw, "remoteUnit", "startRemoteUnit"); fd != nil {
+		var marks []string
+		for _, s := range fd.Body.List {
+			t := x.str(s)
+			switch {
+			case strings.Contains(t, "rw.UpdateFullStatus(") && strings.Contains(t, "ed.RemoteUnitID = red.RemoteUnitID") && !strings.Contains(t, "RemoteStarted"):
+				marks = append(marks, "store(RemoteUnitID)")
+			case strings.Contains(t, "io.Copy(conn, stdin)"):
+				marks = append(marks, "stream-stdin")
+			case strings.Contains(t, "rw.UpdateFullStatus(") && strings.Contains(t, "ed.RemoteStarted = true"):
+				if strings.Contains(t, "RemoteUnitID") {
+					marks = append(marks, "store(RemoteUnitID,RemoteStarted)")
+				} else {
+					marks = append(marks, "store(RemoteStarted)")
+				}
+			}
+		}
+		bind = strings.Join(marks, ";")
+	}
+	x.set("crash_remote_bind_order", bind)
+	// registering a work type rescans the data directory
+	reg := false
+	if fd := x.fn(wc, "Workceptor", "RegisterWorker"); fd != nil {
+		reg = strings.Contains(x.str(fd.Body), "w.scanForUnits()")
+	}
+	x.set("crash_register_rescans", reg)
 }
